@@ -61,8 +61,12 @@ def run(rep):
                 'KVxFxVyFx', 'AVxFxSxGm', 'KSxFxVxFm', 'XxFx V LxGa', 'VxKFxVxGx', 'Lx(Fx & LxGx)']
     for k, t in enumerate(targeted + valid):
         strs.append({'id': 20_000_000 + k, 'str': t})
-    if False:
-        pass
+    # stress strings: very long tokens and very deep nesting (a parser may refuse them, but only with its parse error)
+    stress = ['N' * 150 + 'a', 'N' * 1200 + 'a', '~' * 600 + 'A', 'K' * 100 + 'a' * 101, '(' * 200 + 'A' + ')' * 200,
+              'a' + '1' * 4301, 'a' + '1' * 5000, 'a' + '0' * 5000, 'Fm' + '1' * 4301, 'A' + '1' * 5000, 'F' + '1' * 5000 + 'a',
+              'Vx' + 'N' * 300 + 'Fx', 'Lx' + '~' * 700 + 'Fx', ' ' * 3000 + 'a', 'a' + ' ' * 3000]
+    for k, t in enumerate(stress):
+        strs.append({'id': 30_000_000 + k, 'str': t})
     for k, m in enumerate(mutants(rng, valid, 20000 if thorough else 3000)):
         strs.append({'id': 10_000_000 + k, 'str': m})
     sf = d / 'all.ndjson'
